@@ -192,10 +192,11 @@ def mixcase(s, sp):
     if not sp.seed:
         return s
     k = sp.pick([0, 0, 1, 2])
+    # CSS is case-insensitive in ASCII only: never touch other letters (str.upper maps U+017F to S, ...)
     if k == 1:
-        return s.upper()
+        return ''.join(c.upper() if c.isascii() else c for c in s)
     if k == 2:
-        return s.capitalize()
+        return ''.join((c.upper() if i == 0 else c.lower()) if c.isascii() else c for i, c in enumerate(s))
     return s
 
 
